@@ -19,6 +19,12 @@
 //!     S<k>   connection k is stalled: excluded from `F` until `U`; `Z<k>`: stalled for good
 //!     F      every connection that is not stalled runs freely; wait for quiescence; snapshot
 //!     U      no connection is stalled any more (everything runs freely); quiescence; snapshot
+//!   tcp names=<r0>,<r1>[,<r2>] mode=<iso|trans> expect=<xy>,<xy>,... | d<x><y> d<x><y> ...
+//!     REAL TCP: node i is n<rank>@127.0.0.1 with its own listener on a free loopback port; d<x><y> = node x
+//!     dials node y with `ractor_cluster::client_connect`; mode=trans: NodeConnectionMode::Transitive (a node
+//!     dials the peers its peer tells it about). Real-time runtime; after the dials the driver waits —
+//!     bounded, else exit 2 — until every expected pair has exactly one session at both nodes and nothing else
+//!     is open. Output: mkTcp [events as below, conn = -1] [(node, [(session, is_server, peer_rank); ...]); ...]
 //! stdout, one Coq-syntax term per case:
 //!   mkNet [(k, dialler, acceptor, nonce); ...]
 //!         [(node, kind, session, is_server, conn); ...]          kind 0 opened 1 authenticated 2 ready 3 disconnected
@@ -634,8 +640,9 @@ async fn run_case(line: String) -> String {
                 lg.write = Some(w);
                 tokio::spawn(legacy_reader(r, lg.inbox.clone()));
             } else {
-                nodes[c.dial]
-                    .cast(NodeServerMessage::ConnectionOpenedExternal { stream: Box::new(d), is_server: false })
+                // the dialling side goes through the public helper for external transports
+                ractor_cluster::client_connect_external(&nodes[c.dial], Box::new(d))
+                    .await
                     .unwrap_or_else(|e| infra(format!("open: {e}")));
             }
             nodes[c.acc]
@@ -730,6 +737,146 @@ async fn run_case(line: String) -> String {
     format!("mkNet {} {} {} {}", coq_list(&cs), coq_list(&evs), coq_list(&snaps), coq_list(&legs))
 }
 
+// ------------------------------------------------------------------ real TCP between real nodes
+
+fn tcp_rank(name: &str) -> u64 {
+    name.strip_prefix('n').and_then(|x| x.split('@').next()).and_then(|x| x.parse().ok()).unwrap_or(u64::MAX)
+}
+
+async fn run_tcp(line: String) -> String {
+    let (head, toks) = line.split_once('|').unwrap_or_else(|| infra(format!("no '|' in {line:?}")));
+    let mut ranks: Vec<u64> = Vec::new();
+    let mut trans = false;
+    let mut expect: Vec<(usize, usize)> = Vec::new();
+    for w in head.split_whitespace() {
+        if let Some(v) = w.strip_prefix("names=") {
+            ranks = v.split(',').map(u).collect();
+        } else if let Some(v) = w.strip_prefix("mode=") {
+            trans = v == "trans";
+        } else if let Some(v) = w.strip_prefix("expect=") {
+            for p in v.split(',') {
+                let b = p.as_bytes();
+                expect.push(((b[0] - b'0') as usize, (b[1] - b'0') as usize));
+            }
+        } else if w != "tcp" {
+            infra(format!("bad header word {w:?}"));
+        }
+    }
+    let events: Events = Arc::new(Mutex::new(Vec::new()));
+    let mut nodes: Vec<ActorRef<NodeServerMessage>> = Vec::new();
+    let mut ports: Vec<u16> = Vec::new();
+    let mut handles = Vec::new();
+    for (i, r) in ranks.iter().enumerate() {
+        let port = match std::net::TcpListener::bind("127.0.0.1:0").and_then(|l| l.local_addr()) {
+            Ok(a) => a.port(),
+            Err(e) => infra(format!("no free loopback port: {e}")),
+        };
+        let mode = if trans { ractor_cluster::node::NodeConnectionMode::Transitive } else { ractor_cluster::node::NodeConnectionMode::Isolated };
+        let server = NodeServer::new(port, "cookie".to_string(), format!("n{:010}", r), "127.0.0.1".to_string(), None, Some(mode))
+            .with_listen_addr(std::net::IpAddr::V4(std::net::Ipv4Addr::LOCALHOST));
+        let (n, h) = Actor::spawn(None, server, ()).await.unwrap_or_else(|e| infra(format!("node {i} does not start: {e}")));
+        n.cast(NodeServerMessage::SubscribeToEvents { id: "h".to_string(), subscription: Box::new(Sub { node: i, events: events.clone() }) })
+            .unwrap_or_else(|e| infra(format!("subscribe: {e}")));
+        let _ = sessions_of(&n).await;
+        nodes.push(n);
+        ports.push(port);
+        handles.push(h);
+    }
+    for t in toks.split_whitespace() {
+        let b = t.as_bytes();
+        if b.len() != 3 || b[0] != b'd' {
+            infra(format!("bad token {t:?}"));
+        }
+        let (x, y) = ((b[1] - b'0') as usize, (b[2] - b'0') as usize);
+        if let Err(e) = ractor_cluster::client_connect(&nodes[x], format!("127.0.0.1:{}", ports[y])).await {
+            infra(format!("tcp connect {x}->{y} failed: {e}"));
+        }
+    }
+    // wait for the logical end state (bounded in real time; a miss is an infrastructure verdict because
+    // real time is involved)
+    // real time is only used to notice that nothing changes any more: as long as there is progress the
+    // wait goes on (120 s overall => infrastructure failure); a state frozen for 10 s that is not the
+    // expected end state is reported as it is (an observation for the oracle)
+    let deadline = std::time::Instant::now() + Duration::from_secs(120);
+    let mut stable = 0;
+    let mut last_fp = String::new();
+    let mut frozen_since = std::time::Instant::now();
+    let table = loop {
+        let mut per_node: Vec<Vec<(u64, bool, u64)>> = Vec::new();
+        for n in &nodes {
+            let mut v: Vec<(u64, bool, u64)> = sessions_of(n)
+                .await
+                .into_values()
+                .map(|s| (s.actor.get_id().pid(), s.is_server, s.peer_name.as_ref().map(|p| tcp_rank(&p.name)).unwrap_or(u64::MAX)))
+                .collect();
+            v.sort();
+            per_node.push(v);
+        }
+        let mut ok = true;
+        for (i, v) in per_node.iter().enumerate() {
+            let want: Vec<u64> = expect.iter().filter_map(|(x, y)| if *x == i { Some(ranks[*y]) } else if *y == i { Some(ranks[*x]) } else { None }).collect();
+            let mut got: Vec<u64> = v.iter().map(|s| s.2).collect();
+            let mut want = want;
+            got.sort();
+            want.sort();
+            ok &= got == want;
+        }
+        {
+            // nothing else is open: every opened session that is not listed has been disconnected
+            let e = events.lock().unwrap();
+            for (i, v) in per_node.iter().enumerate() {
+                let opened = e.iter().filter(|x| x.0 == i && x.1 == 0).count();
+                let closed = e.iter().filter(|x| x.0 == i && x.1 == 3).count();
+                ok &= opened - closed == v.len();
+                // the survivors have reported ready
+                for s in v {
+                    ok &= e.iter().any(|x| x.0 == i && x.1 == 2 && x.2 == s.0);
+                }
+            }
+        }
+        if ok {
+            stable += 1;
+            if stable >= 20 {
+                break per_node;
+            }
+        } else {
+            stable = 0;
+        }
+        let fp = format!("{per_node:?}#{}", events.lock().unwrap().len());
+        if fp != last_fp {
+            last_fp = fp;
+            frozen_since = std::time::Instant::now();
+        } else if !ok && frozen_since.elapsed() >= Duration::from_secs(10) {
+            break per_node;
+        }
+        if std::time::Instant::now() >= deadline {
+            infra(format!("tcp: still changing after 120 s: {per_node:?}"));
+        }
+        tokio::time::sleep(Duration::from_millis(10)).await;
+    };
+    let evs: Vec<String> = events
+        .lock()
+        .unwrap()
+        .iter()
+        .map(|(n, kind, sid, srv, _)| format!("({}, {}, {}, {}, -1)", n, kind, sid, coq_bool(*srv)))
+        .collect();
+    let tab: Vec<String> = table
+        .iter()
+        .enumerate()
+        .map(|(i, v)| {
+            let items: Vec<String> = v.iter().map(|(s, srv, r)| format!("({}, {}, {})", s, coq_bool(*srv), r)).collect();
+            format!("({}, {})", i, coq_list(&items))
+        })
+        .collect();
+    for n in &nodes {
+        n.stop(None);
+    }
+    for (i, h) in handles.into_iter().enumerate() {
+        join_bounded(&format!("node {i}"), h).await;
+    }
+    format!("mkTcp {} {}", coq_list(&evs), coq_list(&tab))
+}
+
 fn main() {
     let default_hook = std::panic::take_hook();
     std::panic::set_hook(Box::new(move |info| {
@@ -737,12 +884,19 @@ fn main() {
         default_hook(info);
     }));
     for (case, line) in stdin_lines().into_iter().enumerate() {
+        let is_tcp = line.starts_with("tcp ");
         let rt = tokio::runtime::Builder::new_current_thread()
             .enable_all()
-            .start_paused(true)
+            .start_paused(!is_tcp)
             .build()
             .unwrap_or_else(|e| infra(format!("runtime: {e}")));
-        let res = std::panic::catch_unwind(std::panic::AssertUnwindSafe(|| rt.block_on(run_case(line.clone()))));
+        let res = std::panic::catch_unwind(std::panic::AssertUnwindSafe(|| {
+            if is_tcp {
+                rt.block_on(run_tcp(line.clone()))
+            } else {
+                rt.block_on(run_case(line.clone()))
+            }
+        }));
         let out = match res {
             Ok(o) => o,
             Err(_) => infra(format!("driver panicked in case {case}: {line}")),
